@@ -168,10 +168,11 @@ def check_two_level(ctx, case):
     MB, VB = impl.generic_classes(B)
     def rec(word, rid):
         return impl.CircularRecord(impl.Seq(word), id=rid, name=rid, annotations={"molecule_type": "DNA"})
+    n1, n0, n9 = case.get("names") or ["r1", "r0", "r9"]        # what the input plasmids are called (any text)
     with warnings.catch_warnings():
         warnings.simplefilter("ignore")
-        m1 = MA(rec(case["modA"], "r1"))
-        v1 = VA(rec(case["vecA"], "r0"))
+        m1 = MA(rec(case["modA"], n1))
+        v1 = VA(rec(case["vecA"], n0))
         try:
             p1 = v1.assemble(m1, id=case["id1"], name="lvl1")
         except Exception as e:  # noqa
@@ -179,7 +180,7 @@ def check_two_level(ctx, case):
             return
         provenance_ok(ctx, p1, [v1, m1], case, 1)
         m2 = MB(p1)
-        v2 = VB(rec(case["vecB"], "r9"))
+        v2 = VB(rec(case["vecB"], n9))
         if not m2.is_valid():
             ctx.note("two-level-skipped")
             return
@@ -193,12 +194,12 @@ def check_two_level(ctx, case):
         if p2.id != case["id2"]:
             ctx.fail("two-level: product id", case)
         # the inner provenance features are inherited as ordinary features
-        inner = [f for f in p2.features if f.type == "source" and f.qualifiers.get("plasmid") == "r1"]
+        inner = [f for f in p2.features if f.type == "source" and f.qualifiers.get("plasmid") == n1]
         if not inner:
             ctx.fail("two-level: the provenance feature of the level-1 module, which lies inside the level-2 fragment, "
                      "is not inherited by the level-2 product", case)
         # … and still cover a stretch that occurs verbatim in the level-1 plasmid they name
-        words = {"r1": case["modA"], "r0": case["vecA"]}
+        words = {n1: case["modA"], n0: case["vecA"]}
         seq2 = str(p2.seq)
         for f in p2.features:
             nm_ = f.qualifiers.get("plasmid") if f.type == "source" else None
@@ -249,7 +250,9 @@ def gen_two_level(rng):
             return {"A": str(A), "B": str(B), "modA": gen.rot(modA, rng.randrange(len(modA))),
                     "vecA": gen.rot(vecA, rng.randrange(len(vecA))), "vecB": gen.rot(vecB, rng.randrange(len(vecB))),
                     "id1": rng.choice(["assembly", "r1", "r0", "lvl1x", "r1"]),
-                    "id2": rng.choice(["assembly", "final", "r9"])}
+                    "id2": rng.choice(["assembly", "final", "r9"]),
+                    "names": rng.choice([None, None, ["pTDH3-2\u00b5", "pVEC-\u03940", "prom-caf\u00e9"],
+                                         ["prom-caf\u00e9", "prom-cafe", "r9"]])}
     return None
 
 
